@@ -11,6 +11,7 @@ import JumanjiModel.Env.FlatPack.InvLemmas
 import JumanjiModel.Env.FlatPack.CoverLemmas
 import JumanjiModel.Env.FlatPack.BoundsLemmas
 import JumanjiModel.Env.FlatPack.Episode
+import JumanjiModel.Env.FlatPack.SpecValid
 open Jm FlatPack
 
 namespace Props.C04
@@ -45,6 +46,18 @@ theorem flatpack_step_agrees (cfg : Cfg) (s : State) (hi : Inv cfg s) (b k r c :
     maskAt s.actionMask (act b k r c) = true ↔ legal cfg s b k r c := FlatPack.valid_iff_legal cfg s hi.2 hin
 
 example : legal ⟨3, 3, 1, true⟩ ⟨Jx.Grid.mk 3 3 0, 1, [[[1,1,0],[1,1,1],[0,0,1]]], [], [false], 0⟩ 0 1 0 0 := by decide
+
+/-- (wave 3, audit) `flatpack_step_agrees` speaks of the mask lookup inside `step`; this one is about what `step` RETURNS: on
+every state satisfying the episode invariant, for every action of the action space, the environment executes the action
+(the placed flags change: block `b` becomes placed, and it was not placed before) exactly when the rules allow it, and
+otherwise leaves grid and placed flags as they are: legal ↔ the step did not treat the action as invalid -/
+theorem flatpack_step_reaction (rnd : Rat → Rat) (cfg : Cfg) (s : State) (hi : Inv cfg s) (b k r c : Nat)
+    (hin : inSpec cfg b k r c = true) :
+    ((step rnd cfg s (act b k r c)).1.placed ≠ s.placed ↔ legal cfg s b k r c) ∧
+    (legal cfg s b k r c → (step rnd cfg s (act b k r c)).1.placed = s.placed.set b true ∧ s.placed.getD b true = false) ∧
+    (¬ legal cfg s b k r c → (step rnd cfg s (act b k r c)).1.grid = s.grid ∧
+      (step rnd cfg s (act b k r c)).1.placed = s.placed) :=
+  FlatPack.step_executes_iff_legal rnd cfg s hi b k r c hin
 end Props.C04
 
 namespace Props.C05
@@ -88,6 +101,36 @@ theorem flatpack_complete_is_solution (cfg : Cfg) (s : State) (hf : Feasible cfg
   FlatPack.complete_is_solution cfg s hf hall hsum
 
 example : Feasible ⟨3, 3, 1, true⟩ ⟨[[1,1,0],[1,1,1],[0,0,1]], 1, [[[1,1,0],[1,1,1],[0,0,1]]], [], [true], 1⟩ := by decide
+
+/-- (wave 3, audit) completion THROUGH `step`: a step with any action of the action space from a state of play of a generated
+instance (`Inv`; the blocks have as many cells as the grid, as `freshOK` certifies) after which every block is placed yields
+a complete solution — feasible, every block placed, no empty cell -/
+theorem flatpack_step_complete_is_solution (rnd : Rat → Rat) (cfg : Cfg) (s : State) (hi : Inv cfg s) (b k r c : Nat)
+    (hin : inSpec cfg b k r c = true)
+    (hsum : (s.blocks.map countNonzero).foldl (· + ·) 0 = cfg.numRows * cfg.numCols)
+    (hall : (step rnd cfg s (act b k r c)).1.placed.all id = true) :
+    IsSolution cfg (step rnd cfg s (act b k r c)).1 :=
+  FlatPack.step_complete_is_solution rnd cfg s hi b k r c hin hsum hall
+
+/-- (wave 3) WHOLE PLAYS from a generated instance (certificates `blocksOK`, `freshOK`, evaluated by `flat_pack.instance` on
+every real reset state): after ANY sequence of actions of the action space — legal or ignored, through LAST or not
+(`runAll` does not stop) — the state is feasible and its cached mask is the set of legal moves; in particular at the first
+LAST (`endState`) -/
+theorem flatpack_feasible_along (rnd : Rat → Rat) (cfg : Cfg) (s : State) (hb : blocksOK cfg s = true)
+    (h : freshOK cfg s = true) (as : List Act4) (hin : InSpecAll cfg as) (n : Nat) :
+    Inv cfg (runAll rnd cfg s (as.take n)) ∧ Feasible cfg (runAll rnd cfg s (as.take n)) ∧
+    Inv cfg (endState rnd cfg s as) := by
+  have h0 := FlatPack.fresh_inv' cfg s hb h
+  have h1 := (FlatPack.runAll_inv rnd cfg s (as.take n) h0 (fun a ha => hin a (List.mem_of_mem_take ha))).1
+  exact ⟨h1, h1.1, FlatPack.endState_inv rnd cfg s as h0 hin⟩
+
+example : InSpecAll ⟨5, 3, 2, true⟩ [(0, 0, 0, 0), (0, 0, 0, 0), (1, 0, 2, 0)] ∧
+    (runAll id ⟨5, 3, 2, true⟩
+      (let t : State := { grid := Jx.Grid.mk 5 3 0, numBlocks := 2,
+                          blocks := [[[1,1,1],[1,1,1],[1,0,0]], [[0,2,2],[2,2,2],[2,2,2]]],
+                          actionMask := [], placed := [false, false], stepCount := 0 }
+       { t with actionMask := legalMask ⟨5, 3, 2, true⟩ t })
+      [(0, 0, 0, 0), (0, 0, 0, 0), (1, 0, 2, 0)]).placed = [true, true] := by decide +kernel
 end Props.C06
 
 namespace Props.C08
@@ -266,6 +309,23 @@ namespace Props.C12
 /-- the observation is the documented view (grid, blocks, mask) of the successor state -/
 theorem flatpack_obs_faithful (rnd : Rat → Rat) (cfg : Cfg) (s : State) (a : Action) :
     (step rnd cfg s a).2.obs = observe (step rnd cfg s a).1 := FlatPack.obs_faithful rnd cfg s a
+
+/-- (wave 3) the same for the observation `reset` returns -/
+theorem flatpack_reset_obs_faithful (s : State) : (resetTimeStep s).obs = observe s := rfl
+
+/-- (wave 3, audit) `observe` copies the CACHED mask; on every state of play — the generated state and the successor of every
+step with an action of the action space, terminal step included — what the agent is shown as mask is the table of legal moves
+of the rules for the grid and placed flags it is shown -/
+theorem flatpack_obs_documented (rnd : Rat → Rat) (cfg : Cfg) (s : State) (hi : Inv cfg s) (b k r c : Nat)
+    (hin : inSpec cfg b k r c = true) :
+    observe s = { grid := s.grid, blocks := s.blocks, actionMask := legalMask cfg s } ∧
+    (step rnd cfg s (act b k r c)).2.obs =
+      { grid := (step rnd cfg s (act b k r c)).1.grid, blocks := s.blocks,
+        actionMask := legalMask cfg (step rnd cfg s (act b k r c)).1 } := by
+  refine ⟨FlatPack.observe_documented cfg s hi, ?_⟩
+  rw [FlatPack.obs_faithful, FlatPack.observe_documented cfg _ (FlatPack.step_inv rnd cfg s b k r c hi hin)]
+  have : (step rnd cfg s (act b k r c)).1.blocks = s.blocks := by simp [step]
+  rw [this]
 end Props.C12
 
 namespace Props.C01
@@ -290,4 +350,78 @@ theorem flat_pack_step_obs_in_bounds (rnd : Rat → Rat) (cfg : Cfg) (s : State)
 /-- `BlocksBounded` is preserved trivially (the blocks never change) -/
 theorem flatpack_blocks_unchanged (rnd : Rat → Rat) (cfg : Cfg) (s : State) (a : Action) :
     (step rnd cfg s a).1.blocks = s.blocks := by simp [step]
+
+/-! #### (wave 3) membership in the DECLARED specs: structure, shapes, dtypes and bounds -/
+open Sp PzS PkS
+
+/-- the model's `obsSpec` / `actionSpec` / reward and discount specs ARE the specs generated from the real spec objects
+(Gen/Specs.lean) for the catalogue configuration `FlatPack(RandomFlatPackGenerator(2, 2))` (5 × 5 grid, 4 blocks) -/
+theorem flatpack_obsSpec_generated :
+    prefixed "observation_spec." (obsSpec ⟨5, 5, 4, true⟩) = declared "flatpack-2x2" "observation_spec." ∧
+    [("action_spec", actionSpec ⟨5, 5, 4, true⟩)] = declared "flatpack-2x2" "action_spec" ∧
+    [("reward_spec", rewardSpec)] = declared "flatpack-2x2" "reward_spec" ∧
+    [("discount_spec", discountSpec)] = declared "flatpack-2x2" "discount_spec" := by
+  refine ⟨by decide, by decide, by decide, by decide⟩
+
+/-- the `reset` observation of every generated state (certificates `blocksOK`, `freshOK`, `BlocksBounded` — all three
+evaluated by `flat_pack.instance` on the implementation's reset states) is accepted by `observation_spec.validate`: fields
+`grid`, `blocks`, `action_mask`; shapes `(R, C)`, `(num_blocks, 3, 3)`, `(num_blocks, 4, R − 2, C − 2)`; dtypes int32, int32,
+bool; bounds [0, num_blocks] ×2, [0, 1] -/
+theorem flatpack_reset_obs_valid (cfg : Cfg) (hR : 3 ≤ cfg.numRows) (hB : 0 < cfg.numBlocks) (s : State)
+    (hbo : blocksOK cfg s = true) (hf : freshOK cfg s = true) (hb : BlocksBounded cfg s.blocks) :
+    (obsSpec cfg).valid (toNValue (resetTimeStep s).obs) = true := FlatPack.reset_obs_valid cfg hR hB s hbo hf hb
+
+/-- the same for the observation of EVERY `step` with an action of the action space — placed or ignored, MID or LAST, any
+float rounding — from every state satisfying the episode invariant `Inv` (kept by every such step: `flatpack_step_inv`) -/
+theorem flatpack_step_obs_valid (rnd : Rat → Rat) (cfg : Cfg) (hR : 3 ≤ cfg.numRows) (hB : 0 < cfg.numBlocks) (s : State)
+    (b k r c : Nat) (hi : Inv cfg s) (hin : inSpec cfg b k r c = true) (hb : BlocksBounded cfg s.blocks) :
+    (obsSpec cfg).valid (toNValue (step rnd cfg s (act b k r c)).2.obs) = true :=
+  FlatPack.step_obs_valid rnd cfg hR hB s b k r c hi hin hb
+
+/-- WHOLE EPISODES: every observation of the rollout (`Ep.rollout` = the L1 step iterated, through the first LAST and
+beyond) of ANY actions of the action space from a generated state is a member of the spec -/
+theorem flatpack_rollout_obs_valid (rnd : Rat → Rat) (cfg : Cfg) (hR : 3 ≤ cfg.numRows) (hB : 0 < cfg.numBlocks) (s : State)
+    (hbo : blocksOK cfg s = true) (hf : freshOK cfg s = true) (hb : BlocksBounded cfg s.blocks) (as : List Act4)
+    (hin : InSpecAll cfg as) (j : Nat) (e : State × TimeStep Obs)
+    (he : (Ep.rollout (stepA rnd cfg) s as)[j]? = some e) : (obsSpec cfg).valid (toNValue e.2.obs) = true :=
+  FlatPack.rollout_obs_valid rnd cfg hR hB s hbo hf hb as hin j e he
+
+/-- what membership means (so the theorems above are not hollow) -/
+theorem flatpack_obs_valid_only (cfg : Cfg) (o : Obs) (h : (obsSpec cfg).valid (toNValue o) = true) :
+    shape2 o.grid = [cfg.numRows, cfg.numCols] ∧ (∀ v ∈ o.grid.flatten, v ≤ cfg.numBlocks) ∧
+    shape3 o.blocks = [cfg.numBlocks, 3, 3] ∧ (∀ v ∈ o.blocks.flatten.flatten, v ≤ cfg.numBlocks) ∧
+    shape4 o.actionMask = [cfg.numBlocks, 4, cfg.numRows - 2, cfg.numCols - 2] := FlatPack.obs_valid_only cfg o h
+
+example : blocksOK ⟨5, 3, 2, true⟩ Props.C08.flatpackTwoBlocks = true ∧ freshOK ⟨5, 3, 2, true⟩ Props.C08.flatpackTwoBlocks = true ∧
+    BlocksBounded ⟨5, 3, 2, true⟩ Props.C08.flatpackTwoBlocks.blocks ∧
+    (obsSpec ⟨5, 3, 2, true⟩).valid (toNValue (resetTimeStep Props.C08.flatpackTwoBlocks).obs) = true ∧
+    (obsSpec ⟨5, 3, 1, true⟩).valid (toNValue (resetTimeStep Props.C08.flatpackTwoBlocks).obs) = false := by
+  decide +kernel
+
+/-- reward and discount of every `step` (ALL states, ALL action values, any rounding) and of `reset` are accepted by
+`reward_spec` (Array((), float)) and `discount_spec` (BoundedArray((), float, 0, 1)) -/
+theorem flatpack_reward_discount_valid (rnd : Rat → Rat) (cfg : Cfg) (s : State) (a : Action) :
+    rewardSpec.valid (scalarArr (step rnd cfg s a).2.reward) = true ∧
+    discountSpec.valid (scalarArr (step rnd cfg s a).2.discount) = true ∧
+    rewardSpec.valid (scalarArr (resetTimeStep s).reward) = true ∧
+    discountSpec.valid (scalarArr (resetTimeStep s).discount) = true :=
+  ⟨(FlatPack.step_reward_discount_valid rnd cfg s a).1, (FlatPack.step_reward_discount_valid rnd cfg s a).2,
+   (FlatPack.reset_reward_discount_valid s).1, (FlatPack.reset_reward_discount_valid s).2⟩
+
+/-- `action_spec.generate_value()` = (0, 0, 0, 0): for every grid of at least 3 × 3 with at least one block the action spec
+is well-formed, the generated value is a member (membership in `action_spec` is exactly `inSpec`), and `step` answers it in
+every state with a protocol-conform timestep -/
+theorem flatpack_accepts_generate_value (rnd : Rat → Rat) (cfg : Cfg) (hR : 3 ≤ cfg.numRows) (hC : 3 ≤ cfg.numCols)
+    (hB : 0 < cfg.numBlocks)
+    (hbig : cfg.numBlocks ≤ 2147483648 ∧ cfg.numRows ≤ 2147483648 ∧ cfg.numCols ≤ 2147483648) (s : State) :
+    (actionSpec cfg).WF = true ∧ (actionSpec cfg).valid (actionSpec cfg).generate = true ∧
+    (actionSpec cfg).generate = actionArr (act 0 0 0 0) ∧ inSpec cfg 0 0 0 0 = true ∧
+    StepOK none false (step rnd cfg s (act 0 0 0 0)).2 = true := by
+  have hw := FlatPack.actionSpec_WF cfg hR hC hB hbig
+  refine ⟨hw, Leaf.generate_valid _ hw, FlatPack.actionSpec_generate cfg, ?_, FlatPack.step_protocol rnd cfg s _⟩
+  simp [inSpec]; omega
+
+theorem flatpack_action_spec_iff (cfg : Cfg) (b k r c : Nat) :
+    (actionSpec cfg).valid (actionArr (act b k r c)) = true ↔ inSpec cfg b k r c = true :=
+  FlatPack.actionSpec_valid_iff cfg b k r c
 end Props.C01
